@@ -2,12 +2,12 @@
    [P] C05_inv_partial      every operation outside Known04/Known05 (findings) and Pending05 keeps Inv05 (given Inv04)
    [P] C05_history_partial  ... along every history (Inv04 /\ Inv05 together)
    [P] C45_inv_partial      Inv04 /\ Inv05 together, incl. set_item_name
-   Pending05 (constructor list): OpCopy OpCopyAt OpMove OpMoveAt OpSetItemName OpRemoveFile OpRemoveFromFile;
-   Pending45 (for the combination): OpCopy OpCopyAt OpMove OpMoveAt OpRemoveFile OpRemoveFromFile. *)
+   Pending05 (constructor list): OpCopy OpCopyAt OpMove OpMoveAt OpSetItemName, OpRemoveFile of the last file of a model;
+   Pending45 (for the combination): OpCopy OpCopyAt OpMove OpMoveAt, OpRemoveFile of the last file of a model. *)
 From Coq Require Import PeanoNat Arith.
 From AV Require Import Base.Bytes Base.Outcome Hash.HashModel Tree.Heap Tree.Ops Tree.Script Tree.IndexProofsW
   Tree.Index Tree.IndexProofsBase Tree.IndexProofsAssoc Tree.IndexProofsFrame Tree.IndexProofsAttach
-  Tree.IndexProofsCreate Tree.IndexProofsNamed Tree.IndexProofsEdit Tree.IndexProofsModel Tree.IndexProofsRemoveOp Tree.IndexProofs
+  Tree.IndexProofsCreate Tree.IndexProofsNamed Tree.IndexProofsEdit Tree.IndexProofsModel Tree.IndexProofsRemoveOp Tree.IndexProofsFilesOps Tree.IndexProofs
   Tree.Refs Tree.RefsProofsBase Tree.RefsProofs Tree.RefsProofsReport Tree.RefsProofsCreate Tree.RefsProofsEdit
   Tree.RefsProofsSetName.
 Open Scope string_scope.
@@ -92,7 +92,11 @@ Proof.
     eapply inv05_named_shape; eauto.
   - apply wval_inv in H as (r0 & H). eapply C05_new_model; eauto.
   - apply wval_inv in H as (r0 & H). eapply Inv05_sv; [eapply m_create_file_sv; eauto|exact HI5].
+  - apply wunit_inv in H as (r0 & H).
+    destruct (C45_remove_file T check_fn TK LATEST true _ _ _ _ _ HF HI4 (fun _ => HI5) HK4 HP H) as (_ & _ & H5). apply H5. reflexivity.
   - apply wunit_inv in H as (r0 & H). eapply Inv05_sv; [eapply e_add_to_file_sv; eauto|exact HI5].
+  - apply wunit_inv in H as (r0 & H).
+    destruct (C45_remove_from_file T check_fn TK LATEST true _ _ _ _ _ HF HI4 (fun _ => HI5) HK4 H) as (_ & _ & H5). apply H5. reflexivity.
 Qed.
 
 (* ---------- C04 and C05 together: one step (set_item_name needs both invariants) *)
@@ -104,10 +108,10 @@ Proof.
   intros HF HI4 HI5 HK4 HK5 HP H.
   destruct (Pending04 w o) eqn:E4.
   - (* the only constructor pending for C04 alone but not for the combination *)
-    destruct o; try discriminate E4; try discriminate HP.
+    destruct o; try discriminate E4; try discriminate HP; try (cbn in E4, HP; congruence).
     cbn [run_op] in H. apply wunit_inv in H as (r0 & H).
     destruct (C45_set_item_name T check_fn LATEST TK _ _ _ _ _ HF HI4 HI5 H) as (_ & H1 & H2). auto.
-  - assert (E5 : Pending05 w o = false) by (destruct o; try reflexivity; discriminate).
+  - assert (E5 : Pending05 w o = false) by (destruct o; try reflexivity; try discriminate; exact E4).
     split; [eapply C04_inv_partial; eauto|eapply C05_inv_partial; eauto].
 Qed.
 
